@@ -60,7 +60,7 @@ func TestVerifBoundedMapModel(t *testing.T) {
 		}
 		ops = append(ops, op{1, k, 0})
 	}
-	ops = append(ops, op{2, 0, 0}, op{3, 0, 0}, op{4, 0, 0}, op{5, 0, 0})
+	ops = append(ops, op{2, 0, 0}, op{3, 0, 0}, op{4, 0, 0}, op{5, 0, 0}, op{6, 0, 0})
 	// the "other" map merged by op 3: two fixed pairs
 	evals, fails := 0, 0
 	report := func(format string, a ...any) {
@@ -174,6 +174,15 @@ func TestVerifBoundedMapModel(t *testing.T) {
 			case 5:
 				nm = m.Append(NewMap())
 				h = "append{}"
+			case 6:
+				// merge with a BIG right operand (5 pairs) that shares keys: the right value wins
+				other := NewMap()
+				for k := 0; k < 5; k++ {
+					other = other.Set(keys[k], vals[1])
+					np[k] = vals[1]
+				}
+				nm = m.Append(other)
+				h = "append{k0..k4 big}"
 			case 4:
 				if len(present) < 2 {
 					continue
@@ -206,7 +215,7 @@ func TestVerifBoundedMapModel(t *testing.T) {
 	}
 	rec(NewMap(), map[int]Object{}, nil, 0)
 	fmt.Printf("BOUNDED evaluations=%d distinct=%d exhaustive=true bound=%q\n", evals, len(seen),
-		fmt.Sprintf("all sequences of up to %d operations (set with 2 values, delete, rest, merge with a 2-pair map, merge with the empty map, range prefix) over %d keys of mixed types (int, float, string, bool, nil, array), starting from the empty map; crosses the 4-pair threshold in both directions", maxOps, nk+1))
+		fmt.Sprintf("all sequences of up to %d operations (set with 2 values, delete, rest, merge with a 2-pair map, merge with the empty map, merge with a 5-pair map, range prefix) over %d keys of mixed types (int, float, string, bool, nil, array), starting from the empty map; crosses the 4-pair threshold in both directions", maxOps, nk+1))
 	if fails > 0 {
 		t.Fatalf("%d failures", fails)
 	}
